@@ -160,6 +160,15 @@ pub fn check_c01(h: &Hist) -> POut {
                                 out.violations.push(viol("C01", "R3-oversize-admitted", e.seq, "entry costing more than max_cost admitted or evicted something", format!("add({}, cost {}) with max_cost {}: added={} victims={:?}", key, cost, emax, added, victims)));
                             }
                         }
+                        if ecost > emax && was_charged {
+                            // a key that is already charged (vetoed replacement, index collision,
+                            // an earlier insert of the same new key still buffered): refused all the
+                            // same, and a refusal changes no charge
+                            out.probe("oversize_reject_for_a_charged_key", 1);
+                            if *added || victims.as_ref().map_or(false, |v| !v.is_empty()) || *key_costs != ecosts {
+                                out.violations.push(viol("C01", "R3-oversize-changed-a-charge", e.seq, "refused entry costing more than max_cost changed the charge of a resident entry", format!("add({}, cost {}) with max_cost {}: added={} victims={:?} charges before {:?} after {:?}", key, cost, emax, added, victims, ecosts, key_costs)));
+                            }
+                        }
                         if *added && !was_charged {
                             out.nontrivial = true;
                             if victims.as_ref().map_or(false, |v| !v.is_empty()) {
